@@ -115,8 +115,14 @@ class Run:
 
     def _demotes(self, why, rule, construct):
         kinds = [k.split(':')[0].strip() for k in why.split(', ')]
-        if all(k in self.BLOCKWISE_KINDS for k in kinds):
-            return rule in self.BLOCKWISE_DEMOTES or 'rank-dispatch' in str(construct)
+        from .opaque import MEMO_TABLE_READ, MEMO_HELPER
+        memo = (MEMO_TABLE_READ, MEMO_HELPER)
+        if all(k in self.BLOCKWISE_KINDS or k in memo for k in kinds):
+            # a value that comes out of a memo (a module-level table, a new lru_cache helper) is not followed as a value: the formula rules of the function are undecided;
+            # the state rules judge the memo itself (pbv/cachekey.py) and are not demoted by it
+            if any(k in memo for k in kinds) and rule not in ('R-STATE', 'R-MUT'):
+                return True
+            return any(k in self.BLOCKWISE_KINDS for k in kinds) and (rule in self.BLOCKWISE_DEMOTES or 'rank-dispatch' in str(construct))
         return True
 
     def _not_followed(self, loc, construct):
